@@ -1,6 +1,7 @@
 (* C09 - every producer emits only well-formed event streams (Visitor contract).
    Statements only; proofs are in Core/AdapterProofs.v. *)
-From SF Require Import Base.Prelude Core.Events Core.EventsProofs Core.AdapterProofs Cbor.Spec Cbor.Parse Cbor.ConformanceProofs Cbor.ComposeProofs Gotype.Types Gotype.Fold Gotype.FoldProofs.
+From SF Require Import Base.Prelude Core.Events Core.EventsProofs Core.AdapterProofs Cbor.Spec Cbor.Parse Cbor.ConformanceProofs Cbor.ComposeProofs Gotype.Types Gotype.Fold Gotype.FoldProofs Ubjson.Spec Ubjson.Parse.
+From SF Require Ubjson.ConformanceProofs.
 
 (* The contract monitor [contract_ok] (balanced and properly nested starts/finishes, one
    key before every member value, an announced non-negative length equals the number of
@@ -59,3 +60,12 @@ Theorem C09_cbor_accepted : forall b evs, all_bytes b = true -> (zlen b <=? MaxI
              cbor_decode_all (S (length b)) b = Some (map (fun t => cv (value_of t)) ts).
 Proof. exact C09_cbor_accepted_wf. Qed.
 Print Assumptions C09_cbor_accepted.
+
+(* UBJSON parser: on every value the reference decoder accepts the events obey the contract
+   (counted containers hold exactly their count, typed arrays only elements of their type,
+   no-ops are not counted). *)
+Theorem C09_ubj_parser : forall b v, all_bytes b = true -> (zlen b <=? 9223372036854775807) = true ->
+  SF.Ubjson.ConformanceProofs.no_huge_zero_typed b = true -> ubj_decode b = RValue v [] ->
+  exists evs p, urun_parse None b = Ok (evs, unilE, p) /\ contract_ok evs = true.
+Proof. exact SF.Ubjson.ConformanceProofs.C09_ubj_parser. Qed.
+Print Assumptions C09_ubj_parser.
